@@ -266,9 +266,76 @@ func runCheck(prop, tier string, ovs []string, only string, writeBaseline, noRep
 			lines = append(lines, fmt.Sprintf("VACUOUS contract: %s (precondition or assumptions exclude every return): %s", r.ob.Name, r.status))
 		}
 	}
+	// bounded concrete search (stand-in, labelled bounded): for a function that could not be decided, and for
+	// obligations with a counter-model the replay could not realise, the executable contract is used as an oracle on
+	// generated inputs of the real function. It can only confirm a violation.
+	boundedRuns := 0
+	if !noReplay {
+		need := map[*FuncResult]bool{}
+		for _, fr := range frs {
+			if fr.undecided != "" && fr.fn != nil {
+				need[fr] = true
+			}
+		}
+		for _, r := range all {
+			if (r.verdict == "undecided" || r.verdict == "violation-unconfirmed") && r.ob.Kind != "effect" && r.ob.Kind != "cover" {
+				need[r.fr] = true
+			}
+		}
+		for _, fr := range frs {
+			if !need[fr] {
+				continue
+			}
+			dir := filepath.Join(replayBase, prop, safeName(fr.fc.Func)+"_bounded_search")
+			n := 200000
+			if tier == "thorough" {
+				n = 5000000
+			}
+			confirmed, log := searchFunction(ctx, fr, prop, dir, n)
+			boundedRuns++
+			if !confirmed {
+				fr.searchNote = firstLineOf(log)
+				continue
+			}
+			os.WriteFile(filepath.Join(dir, "replay.log"), []byte(log), 0o644)
+			os.WriteFile(filepath.Join(dir, "obligation.txt"), []byte(fmt.Sprintf("property: %s\nfunction: %s\nkind: bounded concrete search with the executable contract as oracle (stand-in, %d generated inputs)\nreason it ran: %s\n", prop, fr.fc.Func, n, fr.undecided)), 0o644)
+			violations++
+			lines = append(lines, fmt.Sprintf("VIOLATION property=%s replay=%s obligation=%q (bounded search on the real code)", prop, dir, fr.fc.Func+"#bounded-search"))
+			for _, r := range all {
+				if r.fr == fr && r.verdict == "violation-unconfirmed" {
+					r.verdict = "violation"
+				}
+			}
+		}
+	}
 	for _, fr := range frs {
 		if fr.undecided != "" {
 			lines = append(lines, fmt.Sprintf("UNDECIDED function %s: %s", fr.fc.Func, fr.undecided))
+		}
+	}
+	// vacuity of effect clauses: a clause whose `every` pattern matches no event in any function it is attached to
+	// proves nothing (a renamed callee, a call that is no longer an event ...)
+	effTotal := map[string]int{}
+	effDecided := map[string]bool{}
+	for _, fr := range frs {
+		if fr.eng == nil || fr.fc == nil {
+			continue
+		}
+		for _, ec := range fr.fc.EffectCl {
+			if propOfLabel(ec.Label) != prop {
+				continue
+			}
+			effTotal[ec.Label] += fr.eng.effectMatches[ec.Label]
+			if fr.undecided == "" {
+				effDecided[ec.Label] = true
+			}
+		}
+	}
+	vacuousEffects := 0
+	for label, n := range effTotal {
+		if n == 0 && effDecided[label] {
+			lines = append(lines, fmt.Sprintf("VACUOUS effect clause %s: its pattern matches no call in any function it is attached to", label))
+			vacuousEffects++
 		}
 	}
 	sort.Strings(lines)
@@ -307,7 +374,7 @@ func runCheck(prop, tier string, ovs []string, only string, writeBaseline, noRep
 		return 1
 	}
 	// vacuity: zero obligations or a contract that excludes everything is broken machinery, not a pass
-	if len(all) == 0 || counts["cover-fail"] > 0 {
+	if len(all) == 0 || counts["cover-fail"] > 0 || vacuousEffects > 0 {
 		fmt.Println("CHECK BROKEN: no obligations generated or vacuous contract")
 		return 3
 	}
